@@ -97,15 +97,23 @@ Proof. intros a b g [X|X]; [left; apply in_or_app; right; exact X|right; exact X
 Lemma stage_pre_good : forall r s, s_pending s = None -> s_deferred s = None -> stage_pre (stage_of r) s.
 Proof. intros [|ns] s Hp Hd; cbn; auto. Qed.
 
+Lemma resume_at_good : forall cfg st s s' o,
+  resume_at cfg st s = (s', o) -> s_control s = CIdle -> stage_pre st s -> In OOutOfFuel o \/ good s'.
+Proof. intros cfg st s s' o H. unfold resume_at in H. eapply idle_run_good; exact H. Qed.
+
+Lemma idle_loop_good : forall cfg n s s' o,
+  idle_loop n cfg s = (s', o) -> s_control s = CIdle -> stage_pre St1 s -> In OOutOfFuel o \/ good s'.
+Proof. intros cfg n s s' o H. unfold idle_loop in H. eapply idle_run_good; exact H. Qed.
+
 Lemma fire_good : forall cfg s t s1 o1,
   good s -> fire_deadline cfg (upd_now s t) = (s1, o1) -> In OOutOfFuel o1 \/ good s1.
 Proof.
   intros cfg s t s1 o1 [Hp Hd] H. unfold fire_deadline in H.
   change (s_control (upd_now s t)) with (s_control s) in H.
   destruct (s_control s) as [|se dl r|resp n ret dl] eqn:Ec.
-  - eapply idle_run_good; [exact H|exact Ec|left; exact Hp].
+  - eapply resume_at_good; [exact H|exact Ec|left; exact Hp].
   - destruct (resume_at cfg (stage_of r) (upd_control (upd_now s t) CIdle)) as [s2 o2] eqn:E. inv_pair H.
-    apply (fuel_app [_; _]). eapply idle_run_good; [exact E|reflexivity|].
+    apply (fuel_app [_; _]). eapply resume_at_good; [exact E|reflexivity|].
     apply stage_pre_good; [exact Hp|apply Hd; reflexivity].
   - cbv zeta in H. destruct (_ && _).
     + inv_pair H. right. split; [exact Hp|]. cbn. discriminate.
@@ -113,7 +121,7 @@ Proof.
       destruct (resume_at cfg (St3 ns) s2) as [s3 o3] eqn:E3. inv_pair H.
       apply end_unsol_spec in E2. destruct E2 as (Hc2 & Hv2 & _). psimpl_in Hv2.
       apply (fuel_app [_]). apply fuel_app.
-      eapply idle_run_good; [exact E3|exact Hc2|]. left. congruence.
+      eapply resume_at_good; [exact E3|exact Hc2|]. left. congruence.
 Qed.
 
 Lemma good_upd_now : forall s t, good s -> good (upd_now s t).
@@ -143,7 +151,7 @@ Proof.
   set (s0 := upd_frame_id s fid) in *.
   change (s_control s0) with (s_control s) in H.
   destruct (s_control s) as [|se dl r|resp n ret dl] eqn:Ec.
-  - eapply idle_run_good; [exact H|exact Ec|]. right. apply Hd. reflexivity.
+  - eapply idle_loop_good; [exact H|exact Ec|]. right. apply Hd. reflexivity.
   - specialize (Hd eq_refl).
     destruct (sol_wait_fragment cfg s0 se dl from bc bytes d) as [out o1] eqn:E1.
     destruct out as [dl'|rt|].
@@ -151,7 +159,7 @@ Proof.
     + destruct (se_fin se).
       * destruct (resume_at cfg (stage_of r) (upd_control (upd_last_bcast s0 None) CIdle)) as [s2 o2] eqn:E2.
         inv_pair H. apply fuel_app. apply (fuel_app [_]).
-        eapply idle_run_good; [exact E2|reflexivity|]. apply stage_pre_good; [exact Hp|exact Hd].
+        eapply resume_at_good; [exact E2|reflexivity|]. apply stage_pre_good; [exact Hp|exact Hd].
       * destruct (format_read_response (upd_last_bcast s0 None) false (seq16_next (se_ecsn se)) 0)
           as [[[s2 rsp] next] o2] eqn:E2.
         destruct (write_solicited s2 rt rsp) as [[s3 rsp'] o3] eqn:E3.
@@ -165,11 +173,11 @@ Proof.
         -- inv_pair H. right. split; [exact Hp3|intros _; exact Hd3].
         -- match type of H with (let '(_, _) := ?X in _) = _ => destruct X as [s5 o5] eqn:E5 end. inv_pair H.
            apply fuel_app. apply (fuel_app [_]). apply fuel_app. apply fuel_app.
-           eapply idle_run_good; [exact E5|reflexivity|]. apply stage_pre_good; [exact Hp3|exact Hd3].
+           eapply resume_at_good; [exact E5|reflexivity|]. apply stage_pre_good; [exact Hp3|exact Hd3].
     + destruct (resume_at cfg (stage_of r) (upd_pending (upd_control s0 CIdle) (Some (from, bc, bytes, d, fid))))
         as [s2 o2] eqn:E2. inv_pair H.
       apply fuel_app. apply (fuel_app [_]).
-      eapply idle_run_good; [exact E2|reflexivity|]. destruct r; cbn; auto.
+      eapply resume_at_good; [exact E2|reflexivity|]. destruct r; cbn; auto.
   - destruct (unsol_wait_fragment cfg s0 resp from bc bytes d fid) as [[s1 res] o1] eqn:E1.
     apply unsol_wait_fragment_spec in E1. destruct E1 as (Hw & _). unfold wview in Hw. unfold s0 in Hw. psimpl_in Hw.
     assert (Hp1 : s_pending s1 = None) by congruence.
@@ -178,7 +186,7 @@ Proof.
       destruct (resume_at cfg (St3 ns) s2) as [s3 o3] eqn:E3. inv_pair H.
       apply end_unsol_spec in E2. destruct E2 as (Hc2 & Hv2 & _).
       apply fuel_app. apply fuel_app.
-      eapply idle_run_good; [exact E3|exact Hc2|]. left. congruence.
+      eapply resume_at_good; [exact E3|exact Hc2|]. left. congruence.
     + inv_pair H. right. split; [exact Hp1|].
       replace (s_control s') with (s_control s) by congruence. rewrite Ec. discriminate.
 Qed.
@@ -203,7 +211,7 @@ Proof.
       - destruct (idle_loop 8 cfg s0) as [s1 o1] eqn:E1.
         destruct (advance 64 cfg s1 (s_now s1 + settle_ms)) as [s2 o2] eqn:E2. inv_pair H.
         exists s1, o1, o2. split; [|split; [exact E2|reflexivity]].
-        eapply idle_run_good; [exact E1|exact Ec|]. left. apply Hg.
+        eapply idle_loop_good; [exact E1|exact Ec|]. left. apply Hg.
       - destruct (advance 64 cfg (upd_notify s0 true) (s_now (upd_notify s0 true) + settle_ms)) as [s2 o2] eqn:E2.
         inv_pair H. exists (upd_notify s0 true), []. eexists. split; [right; exact Hg|]. split; [exact E2|reflexivity].
       - destruct (advance 64 cfg (upd_notify s0 true) (s_now (upd_notify s0 true) + settle_ms)) as [s2 o2] eqn:E2.
@@ -216,11 +224,11 @@ Proof.
     destruct (idle_loop 8 cfg s1) as [s2 o2] eqn:E2.
     destruct (advance 64 cfg s2 (s_now s2 + settle_ms)) as [s3 o3] eqn:E3. inv_pair H.
     apply (fuel_app [_; _]).
-    apply idle_run_good in E2; [|reflexivity|left; reflexivity].
+    apply idle_loop_good in E2; [|reflexivity|left; reflexivity].
     destruct E2 as [X|Hg2]; [left; apply in_or_app; left; exact X|].
     apply fuel_app. eapply advance_good; eauto.
 Qed.
 
 Theorem ostart_good : forall cfg sel op iin a s' o,
   ostart cfg sel op iin a = (s', o) -> In OOutOfFuel o \/ good s'.
-Proof. intros. eapply idle_run_good; [exact H|reflexivity|left; reflexivity]. Qed.
+Proof. intros. unfold ostart in H. eapply idle_loop_good; [exact H|reflexivity|left; reflexivity]. Qed.
